@@ -1291,14 +1291,14 @@ func (h *H) interfere(outer recID) {
 	if len(cands) == 0 {
 		return
 	}
-	// half of the time a later proposal of the same target (its linking writes the proposal that is being applied)
+	// mostly a later proposal of the same target (its linking writes the proposal that is being applied)
 	succ := []recID{}
 	for _, id := range cands {
 		if id.kind == "prop" && id.a == outer.a && id.idx > outer.idx {
 			succ = append(succ, id)
 		}
 	}
-	if len(succ) > 0 && h.r.Intn(2) == 0 {
+	if len(succ) > 0 && h.r.Intn(4) != 0 {
 		cands = succ
 	}
 	h.nesting++
@@ -1629,7 +1629,7 @@ func runScenario(seed int64, n int, out *bufio.Writer, kind string, suffix strin
 		}
 		nev = r.Intn(2)
 	}
-	if n%16 == 13 && len(h.targets) >= 2 {
+	if (n%16 == 13 || (kind == "atomic" && n%16 == 1) || (kind != "atomic" && n%16 == 5)) && len(h.targets) >= 2 {
 		// scripted (atomic and crash histories alike: exactly one change is pending when the refusal is due, so the twin
 		// meets it at the same request): a change on every target, refused by the device of ONE of them; then a second
 		// change on all targets.  The refusal fails that change only: the other targets apply it, and every target takes
@@ -1656,7 +1656,7 @@ func runScenario(seed int64, n int, out *bufio.Writer, kind string, suffix strin
 		h.nbSet(ops, r.Intn(2) == 0, false)
 		// the second change is submitted either at once (it queues behind the first on every target: its proposals are
 		// being linked while the first is applied) or after the first has run its course
-		early := r.Intn(2) == 0
+		early := r.Intn(4) != 0
 		if !early {
 			h.randomSteps(30+h.r.Intn(30), crashProb)
 			h.settle(40, crashProb)
